@@ -1324,7 +1324,21 @@ def run_process(case) -> CaseResult:
                              case['win'], labels)
             mo.other, me.other = me, mo
             models = [mo, me]
-            collected = ['', '']
+            stalled = False
+
+            def collect(op) -> int:
+                o, e = h.call(proc.collect_output)
+                took = 0
+
+                for v, m in ((o, mo), (e, me)):
+                    v = m.typed(op, v)
+                    if not m.rem().startswith(v):
+                        m.fail('result', op, 'collect_output() is not '
+                               'the next part of the stream')
+                    m.take(len(v))
+                    took += len(v)
+
+                return took
 
             for op in case.get('pre', []):
                 if op[0] == 'pumpall':
@@ -1333,17 +1347,26 @@ def run_process(case) -> CaseResult:
                             case['end'][0] in ('exit', 'signal'):
                         labels.add('status-before-read')
                 elif op[0] == 'collect':
-                    o, e = h.call(proc.collect_output)
                     labels.add('collect')
-                    for i, (v, m) in enumerate(((o, mo), (e, me))):
-                        v = m.typed(op, v)
-                        if not m.rem().startswith(v):
-                            m.fail('result', op, 'collect_output() is not '
-                                   'the next part of the stream')
-                        m.take(len(v))
-                        collected[i] += v
+                    took = collect(op)
+
+                    if took and not stalled and mo.rem() + me.rem():
+                        # polling is the documented use: emptying the
+                        # buffers has to let the rest of the output in
+                        h.pump(chunker)
+
+                        if not collect(op):
+                            stalled = True
+                            mo.defer(
+                                'collect-stall', op, 'collect_output() '
+                                'returned %d units, %d more were written, '
+                                'but nothing further is ever received '
+                                '(window %d)' %
+                                (took, len(mo.rem() + me.rem()),
+                                 case['win']),
+                                'collect_output:window-not-reopened')
                 else:
-                    if me.total:
+                    if me.total or stalled:
                         # nobody reads stderr here: a stdout reader may
                         # legitimately starve once stderr fills the window
                         continue
@@ -1502,6 +1525,9 @@ def process_strategy(tier: str):
                 # could block for good
                 op = st.sampled_from([['pumpall'], ['collect']])
             pre = draw(st.lists(op, max_size=4))
+
+        if client != 'run' and draw(st.integers(0, 2)) == 0:
+            pre = [['pumpall']] + pre
 
         return {'enc': enc, 'win': win, 'pkt': pkt, 'out': out, 'err': err,
                 'script': script, 'end': end, 'client': client,
@@ -1757,6 +1783,32 @@ class Endpoints:
         return f, read_fileobj
 
 
+def is_interleaving(data: str, a: str, b: str) -> bool:
+    """data consists of all of a and all of b, each in order"""
+
+    if len(data) != len(a) + len(b):
+        return False
+
+    reach = {0}
+
+    for k, c in enumerate(data):
+        nxt = set()
+
+        for i in reach:
+            j = k - i
+            if i < len(a) and a[i] == c:
+                nxt.add(i + 1)
+            if j < len(b) and b[j] == c:
+                nxt.add(i)
+
+        if not nxt:
+            return False
+
+        reach = nxt
+
+    return len(a) in reach
+
+
 def drain_fd(read):
     """Everything queued on a non-blocking fd + whether EOF follows"""
 
@@ -1951,6 +2003,9 @@ def run_redirect(case) -> CaseResult:
                 raise Violation('exit-info', 'peer process status %r' %
                                 (resb.exit_status,), 'exit-info:peer')
 
+        h.pump(chunker)
+        h.settle()
+
         # 1. what the remote command saw on stdin
         if stdin_text is not None:
             got = srv.get('A')
@@ -2002,6 +2057,29 @@ def run_redirect(case) -> CaseResult:
 
             data, eof = reader()
             want = ends.raw(text)
+
+            if kerr == 'stdout' and name == 'stdout' and data != want:
+                # output that arrives while the redirection is still being
+                # set up is buffered per stream: only an interleaving of
+                # the two streams can be expected then
+                try:
+                    dtext = data.decode(enc or 'latin-1')
+                except UnicodeDecodeError:
+                    dtext = None
+
+                if dtext is not None and is_interleaving(
+                        dtext, case['out'], case.get('err', '')):
+                    labels.add('merge-reordered')
+                    data = want
+                elif len(data) < len(want):
+                    # known: EOF reaches the stdout target before the
+                    # buffered stderr data does
+                    raise Violation(
+                        'target', 'stderr=STDOUT, stdout -> %s: target has '
+                        '%d bytes of %d (stdout wrote %d units, stderr %d)'
+                        % (kind, len(data), len(want), len(case['out']),
+                           len(case.get('err', ''))),
+                        'target:merged-stderr-lost')
 
             if data != want:
                 raise Violation(
@@ -2090,7 +2168,10 @@ def redirect_strategy(tier: str):
             st.just(['yield'])), max_size=6))
         late = 0
 
-        if kout not in ('PIPE', 'sshwriter') and draw(st.integers(0, 3)) == 0:
+        # (a later redirect cannot merge stderr into stdout in write order:
+        # the two streams were buffered separately)
+        if kout not in ('PIPE', 'sshwriter') and kerr != 'stdout' and \
+                draw(st.integers(0, 2)) == 0:
             late = draw(st.integers(1, 3))
 
         return {'enc': enc, 'win': win, 'pkt': pkt, 'swin': swin,
@@ -2108,6 +2189,288 @@ def redirect_strategy(tier: str):
                     st.just([]), st.just([1]),
                     st.lists(st.integers(1, 400), min_size=1, max_size=5))),
                 'sapi': draw(st.sampled_from(['session', 'process']))}
+
+    return build()
+
+
+# ---------------------------------------------------------------------------
+# family: drain
+# ---------------------------------------------------------------------------
+
+NT_DRAIN = {'drain-blocked', 'closed-while-paused'}
+
+
+def run_drain(case) -> CaseResult:
+    enc = case['enc']
+    labels = set()
+    chunker = chunker_of(case)
+    holder = {}
+    side = case['side']
+    win, pkt = case['win'], case['pkt']
+
+    async def body(stdin, stdout, stderr, chan):
+        holder.update(stdin=stdin, stdout=stdout, stderr=stderr, chan=chan,
+                      done=asyncio.Event())
+        await holder['done'].wait()
+
+    sopts = dict(encoding=enc)
+
+    if side == 'client':
+        sopts.update(window=win, max_pktsize=pkt)
+
+    pair = make_pair(case, body, case['sapi'], **sopts)
+    h = pair.h
+
+    try:
+        pair.handshake(chunker)
+        kw = dict(encoding=enc)
+
+        if side == 'server':
+            kw.update(window=win, max_pktsize=pkt)
+
+        async def opener():
+            if case['capi'] == 'process':
+                proc = await pair.c.create_process('cmd', **kw)
+                return proc.stdin, proc.stdout, proc.stderr
+            return await pair.c.open_session('cmd', **kw)
+
+        cin, cout, cerr = run_hang(h, opener(), chunker, 'open')
+        h.pump(chunker)
+
+        if 'stdin' not in holder:
+            raise Violation('open', 'server handler not started', 'open')
+
+        if side == 'client':
+            writer, reader, peer_writer = cin, holder['stdin'], \
+                holder['stdout']
+        elif case['stream'] == 'e':
+            writer, reader, peer_writer = holder['stderr'], cerr, cin
+        else:
+            writer, reader, peer_writer = holder['stdout'], cout, cin
+
+        chan = writer.channel
+        session, _ = writer.get_redirect_info()
+        high = case['high']
+        low = case['low'] if case['low'] is not None else high // 4
+        events = []
+        bad = []
+
+        def watch(name):
+            orig = getattr(session, name)
+
+            def cb():
+                size = chan.get_write_buffer_size()
+                events.append((name, size))
+
+                # (called from inside asyncssh: reported by check_state)
+                if name == 'pause_writing' and size <= high:
+                    bad.append(Violation(
+                        'water-mark', 'pause_writing() with %d buffered, '
+                        'high-water mark %d' % (size, high),
+                        'water-mark:pause'))
+                if name == 'resume_writing' and size > low:
+                    bad.append(Violation(
+                        'water-mark', 'resume_writing() with %d buffered, '
+                        'low-water mark %d' % (size, low),
+                        'water-mark:resume'))
+                orig()
+
+            setattr(session, name, cb)
+
+        watch('pause_writing')
+        watch('resume_writing')
+        h.call(chan.set_write_buffer_limits, high, case['low'])
+
+        def paused() -> bool:
+            return bool(events) and events[-1][0] == 'pause_writing'
+
+        def check_state(where):
+            size = chan.get_write_buffer_size()
+
+            if bad:
+                raise bad[0]
+
+            if size > high and not paused():
+                raise Violation('water-mark', '%s: %d buffered above the '
+                                'high-water mark %d but writing was not '
+                                'paused' % (where, size, high),
+                                'water-mark:not-paused')
+            if size <= low and paused():
+                raise Violation('water-mark', '%s: %d buffered, at or below '
+                                'the low-water mark %d, but writing is '
+                                'still paused' % (where, size, low),
+                                'water-mark:not-resumed')
+
+        total = 0
+
+        for n in case['writes']:
+            data = ''.join('%x' % ((total + i) % 16) for i in range(n))
+            total += n
+            h.call(writer.write, conv(enc, data))
+            check_state('after write')
+            h.pump(chunker)
+            check_state('after write+pump')
+
+        want = ''.join('%x' % (i % 16) for i in range(total))
+
+        async def drainer():
+            try:
+                await writer.drain()
+            except (OSError, asyncssh.Error) as exc:
+                return ('raised', type(exc).__name__)
+            return ('returned',)
+
+        task = h.spawn(drainer())
+        h.settle()
+        was_paused = paused()
+
+        if was_paused:
+            labels.add('drain-blocked')
+            if task.done():
+                raise Violation('drain-early', 'drain() finished (%r) with '
+                                '%d buffered and writing paused (high %d)' %
+                                (task.result(), chan.get_write_buffer_size(),
+                                 high), 'drain-early')
+        else:
+            labels.add('drain-immediate')
+            if not task.done() or task.result() != ('returned',):
+                raise Violation('drain-blocks', 'drain() did not return at '
+                                'once although writing is not paused (%d '
+                                'buffered, high %d)' %
+                                (chan.get_write_buffer_size(), high),
+                                'drain-blocks')
+
+        fin = case['finish']
+        labels.add('finish-' + fin)
+        labels.add('side-' + side)
+        got = []
+
+        def watch_drain(where):
+            if task.done():
+                if was_paused and task.result() == ('returned',) and \
+                        not any(e[0] == 'resume_writing' for e in events):
+                    raise Violation('drain-early', '%s: drain() returned '
+                                    'although writing never resumed' % where,
+                                    'drain-early')
+            elif not paused():
+                raise Violation('drain-stuck', '%s: writing resumed (%d '
+                                'buffered) but drain() is still pending' %
+                                (where, chan.get_write_buffer_size()),
+                                'drain-stuck')
+
+        def read_some(n):
+            out = run_hang(h, do_op(reader, enc, ['read', n]), chunker,
+                           'peer-read')
+            got.append(unconv(enc, out[1]))
+            h.pump(chunker)
+            check_state('after peer read')
+            watch_drain('after peer read')
+
+        for n in case['reads']:
+            if sum(map(len, got)) >= total:
+                break
+            read_some(n)
+
+        if fin == 'read':
+            guard = 0
+
+            while sum(map(len, got)) < total:
+                read_some(case['readsize'])
+                guard += 1
+                if guard > total + 10:
+                    raise Violation('hang', 'peer reads make no progress',
+                                    'hang:peer-read')
+
+            if ''.join(got) != want:
+                raise Violation('data', 'peer read %d units, %d written' %
+                                (len(''.join(got)), total), 'drain:data')
+
+            if not task.done() or task.result() != ('returned',):
+                raise Violation('drain-stuck', 'everything was delivered '
+                                'but drain() is %s' %
+                                (task.result() if task.done() else 'pending'),
+                                'drain-stuck:end')
+        else:
+            still_paused = paused() and not task.done()
+
+            if fin == 'peer-close':
+                h.call(peer_writer.close)
+            elif fin == 'abort':
+                h.call(chan.abort)
+            else:
+                h.cut_wire()
+
+            h.pump(chunker)
+
+            if not task.done():
+                raise Violation('hang', 'channel gone (%s) but drain() is '
+                                'still pending' % fin, 'hang:drain:' + fin)
+
+            if still_paused:
+                labels.add('closed-while-paused')
+                if task.result()[0] != 'raised':
+                    raise Violation('drain-no-error', 'drain() returned '
+                                    'normally although the channel was '
+                                    'closed (%s) with %d units never sent' %
+                                    (fin, total - sum(map(len, got))),
+                                    'drain-no-error:' + fin)
+
+            # a later drain() must not hang either
+            out = run_hang(h, drainer(), chunker, 'drain-after-close')
+
+            if fin == 'cut' and out[0] != 'raised':
+                raise Violation('drain-no-error', 'drain() after connection '
+                                'loss returned normally',
+                                'drain-no-error:after-cut')
+
+        if fin != 'cut':
+            h.call(holder['done'].set)
+            h.call(holder['chan'].exit, 0)
+            h.pump(chunker)
+
+        if bad:
+            raise bad[0]
+
+        return finish_case(h, labels, NT_DRAIN)
+    finally:
+        pair.close()
+
+
+def drain_strategy(tier: str):
+    @st.composite
+    def build(draw):
+        high = draw(st.sampled_from([0, 1, 8, 64, 1000, 65536]))
+        low = draw(st.one_of(st.none(), st.integers(0, high)))
+        win = draw(st.sampled_from([1, 8, 64, 4096]))
+        pkt = draw(st.sampled_from([1, 7, 64, 32768]))
+        cap = 140000 if min(win, pkt) >= 64 else 1500
+        sizes = sorted({min(cap, max(0, v)) for v in
+                        (0, 1, high - 1, high, high + 1, high + win,
+                         high + win + 1, 2 * high + 2 * win + 3, win)})
+        writes = draw(st.lists(st.one_of(st.sampled_from(sizes),
+                                         st.integers(0, 40)),
+                               min_size=1, max_size=4))
+
+        while sum(writes) > cap:
+            writes.pop()
+
+        rsz = st.one_of(st.integers(1, 50),
+                        st.sampled_from([1, win, high + 1, 100000]))
+        return {'enc': draw(st.sampled_from([None, 'utf-8'])),
+                'side': draw(st.sampled_from(['client', 'server'])),
+                'stream': draw(st.sampled_from(['o', 'o', 'e'])),
+                'capi': draw(st.sampled_from(['session', 'process'])),
+                'sapi': draw(st.sampled_from(['session', 'process'])),
+                'win': win, 'pkt': pkt, 'high': high, 'low': low,
+                'writes': writes or [0],
+                'reads': draw(st.lists(rsz, max_size=4)),
+                'readsize': max(draw(rsz), 16 if cap > 1500 else 1),
+                'finish': draw(st.sampled_from(['read', 'read', 'peer-close',
+                                                'abort', 'cut'])),
+                'chunks': draw(st.one_of(
+                    st.just([]), st.just([1]) if cap <= 1500 else
+                    st.just([4096]),
+                    st.lists(st.integers(1, 400), min_size=1, max_size=5)))}
 
     return build()
 
@@ -2141,5 +2504,12 @@ FAMILIES = [
                              'no-recv_eof', 'no-send_eof'] +
                      ['stdout-' + k for k in sorted(set(TGT_KINDS))] +
                      ['stdin-' + k for k in SRC_KINDS]},
+           timeout_is_violation=True, case_timeout=120),
+    Family('drain', run_drain, strategy=drain_strategy,
+           budget={'quick': 60, 'thorough': 1500},
+           required={'all': ['drain-blocked', 'drain-immediate',
+                             'closed-while-paused', 'finish-read',
+                             'finish-peer-close', 'finish-cut',
+                             'finish-abort', 'side-client', 'side-server']},
            timeout_is_violation=True, case_timeout=120),
 ]
